@@ -668,5 +668,85 @@ theorem swapSymbols_spec {k lim r d m} (e : Enc) (hk : RelSitesOK k lim) (h : Re
   obtain ⟨d', e1, e2, e3⟩ := this
   exact ⟨d', e1, h.with_data d' e2, e3⟩
 
+/-! ### several tables: the callback `for (auto& r : tables) r.swap_symbols(a, b)` -/
+
+/-- what the accessor reports about one entry, with the symbol index as a number -/
+structure AEntry where
+  offset : BitVec 64
+  sym : Nat
+  rtype : BitVec 32
+  addend : BitVec 64
+
+def AEntry.ofRel (v : RelEntry) : AEntry := ⟨v.offset, v.symbol.toNat, v.rtype, v.addend⟩
+
+/-- rewriting the symbol indices of several decoded tables -/
+def aAction : Arr.IndexAction (List (List AEntry)) where
+  act π st := st.map (fun t => t.map (fun a => { a with sym := π a.sym }))
+  act_id st := by simp
+  act_comp g h st := by simp [List.map_map, Function.comp_def]
+
+/-- the decoded entries of a table -/
+def decodeAll (e : Enc) (k : RelSites) (r : SecBuf) (d : Bytes) (m : Nat) : List AEntry :=
+  (List.range m).map (fun j => AEntry.ofRel (decodeRec e k (relRec k r d j)))
+
+/-- `r` is a well-formed table whose symbol indices may range over `n` symbols, decoding to `t` -/
+def Rel1 (e : Enc) (n : Nat) (r : SecBuf) (t : List AEntry) : Prop :=
+  ∃ k lim d m, RelSitesOK k lim ∧ RelWF k r d m ∧ n ≤ lim ∧ t = decodeAll e k r d m
+
+def RelAll (e : Enc) (n : Nat) : List SecBuf → List (List AEntry) → Prop
+  | [], [] => True
+  | r :: rs, t :: ts => Rel1 e n r t ∧ RelAll e n rs ts
+  | _, _ => False
+
+theorem RelAll.get {e n} : ∀ {rs : List SecBuf} {ts : List (List AEntry)}, RelAll e n rs ts →
+    rs.length = ts.length ∧
+    ∀ (i : Nat) r, rs[i]? = some r → ∃ t, ts[i]? = some t ∧ Rel1 e n r t
+  | [], [], _ => ⟨rfl, fun i r h => by simp at h⟩
+  | r :: rs, t :: ts, h => by
+    obtain ⟨h1, h2⟩ := h
+    obtain ⟨g1, g2⟩ := RelAll.get h2
+    refine ⟨by simp [g1], ?_⟩
+    intro i r' hi
+    cases i with
+    | zero => simp at hi; subst hi; exact ⟨t, by simp, h1⟩
+    | succ i => simp at hi; simpa using g2 i r' hi
+  | [], _ :: _, h => by cases h
+  | _ :: _, [], h => by cases h
+
+theorem rel1_step {e : Enc} {n : Nat} {r : SecBuf} {t : List AEntry} (h : Rel1 e n r t)
+    (a b : BitVec 64) (ha : a.toNat < b.toNat) (hb : b.toNat < n) :
+    ∃ r', swapSymbols e r a b = .ok r' ∧
+      Rel1 e n r' (t.map (fun x => { x with sym := Arr.transp a.toNat b.toNat x.sym })) := by
+  obtain ⟨k, lim, d, m, hk, hwf, hn, rfl⟩ := h
+  have hne : a ≠ b := by intro hh; subst hh; omega
+  obtain ⟨d', e1, e2, e3⟩ := swapSymbols_spec e hk hwf a b (by omega) (by omega) hne
+  refine ⟨_, e1, k, lim, d', m, hk, e2, hn, ?_⟩
+  unfold decodeAll
+  rw [List.map_map]
+  apply List.map_congr_left
+  intro j hj
+  have hj' : j < m := by simpa using hj
+  obtain ⟨m1, m2, m3, m4⟩ := e3 j hj'
+  simp only [Function.comp, AEntry.ofRel]
+  have hr : relRec k { r with data := some d' } d' j = relRec k r d' j := rfl
+  rw [hr, m1, m2, m3, m4]
+
+/-- the relocation callback refines "apply the transposition to every stored symbol index" -/
+theorem relCallback_refines (e : Enc) (n : Nat) :
+    ∀ (rs : List SecBuf) (ts : List (List AEntry)) (a b : BitVec 64), RelAll e n rs ts →
+      a.toNat < b.toNat → b.toNat < n →
+      ∃ rs', relCallback e rs a b = .ok rs' ∧
+        RelAll e n rs' (aAction.act (Arr.transp a.toNat b.toNat) ts)
+  | [], [], _, _, _, _, _ => ⟨[], rfl, trivial⟩
+  | r :: rs, t :: ts, a, b, h, ha, hb => by
+    obtain ⟨h1, h2⟩ := h
+    obtain ⟨r', e1, e2⟩ := rel1_step h1 a b ha hb
+    obtain ⟨rs', g1, g2⟩ := relCallback_refines e n rs ts a b h2 ha hb
+    refine ⟨r' :: rs', ?_, ?_⟩
+    · simp only [relCallback, e1, g1]
+    · exact ⟨e2, g2⟩
+  | [], _ :: _, _, _, h, _, _ => by cases h
+  | _ :: _, [], _, _, h, _, _ => by cases h
+
 end Arrange
 end ElfioVerif
